@@ -178,7 +178,21 @@ func LFP(w *world.World, v View, tab Table, withGen bool) (avail []Label, fired 
 			}
 			fired[pi] = true
 			changed = true
-			for _, s := range p.Out {
+			for oi, s := range p.Out {
+				if !withGen && s.Name == "" {
+					// lower bound: a result list with two type-only fields of one type is
+					// outside "well-formed use" (the type is the field key; only one of them
+					// is registered), so neither is promised
+					dup := false
+					for oj, o := range p.Out {
+						if oj != oi && o.Name == "" && o.Type == s.Type {
+							dup = true
+						}
+					}
+					if dup {
+						continue
+					}
+				}
 				avail = append(avail, s.Label)
 				if withGen {
 					for _, sub := range world.Subs {
